@@ -417,8 +417,15 @@ static std::vector<Op> alphabet(const std::string& mode, const Snap& s, int N) {
     if (n < N) ops.push_back({"alloc", -1, -1, 0, -1});
     for (int q = 0; q < n; ++q) {
         ops.push_back({"h", q, -1, 0, -1});
-        ops.push_back({"x", q, -1, 0, -1});
-        ops.push_back({"ry", q, -1, RY_ANGLE, -1});
+        if (mode == "fullc") {
+            // complex alphabet (seed C02-3): amplitudes that are purely imaginary, or complex with unequal parts, in the kept branch
+            ops.push_back({"y", q, -1, 0, -1});
+            ops.push_back({"rx", q, -1, PI / 2, -1});
+            ops.push_back({"rz", q, -1, PI / 3, -1});
+        } else {
+            ops.push_back({"x", q, -1, 0, -1});
+            ops.push_back({"ry", q, -1, RY_ANGLE, -1});
+        }
     }
     for (int c = 0; c < n; ++c)
         for (int t = 0; t < n; ++t)
